@@ -3,5 +3,6 @@ CONSTANTS
   Vars = {"x1", "x2", "x3"}
   Vals = {0, 1, 2, 3}
   Costs <- CostsGen
+  Offsets = {0, 3}
 CONSTRAINT Verdict
 CHECK_DEADLOCK FALSE
